@@ -224,7 +224,7 @@ def messages(tier, seedname):
         try:
             m = lib_pdu.build(spec)
             data = m.encode()
-            if not isinstance(data, (bytes, bytearray)) or len(data) > 253:
+            if not isinstance(data, (bytes, bytearray)) or len(data) > 252:
                 continue
             fc = int(m.function_code)
             if not 0 <= fc <= 255:
@@ -251,6 +251,32 @@ def forced_payload_specs():
         out.append(("WriteMultipleRegistersRequest", False, ("WriteMultipleRegistersRequest", (v, [w, v]), {}, {})))
         out.append(("ReadHoldingRegistersResponse", True, ("ReadHoldingRegistersResponse", ([w, v, (v << 8) | v],), {}, {})))
     return out
+
+
+def extreme_specs():
+    """size extremes: PDU of 1, 2, 252, 253 bytes; RTU frames of 4, 5, 254, 255, 256 bytes"""
+    S = lambda name, *a, **kw: (name, is_client(name), (name, tuple(a), dict(kw), {}))
+    nd = lambda b: b - 1 if b in (0x7b, 0x7d) else b          # keep most extremes free of the binary delimiters
+    regs = lambda n: [(nd(((0x1100 + 7 * i) >> 8) & 0xff) << 8) | nd((0x1100 + 7 * i) & 0xff) for i in range(n)]
+    return [
+        S("ReadExceptionStatusRequest"), S("GetCommEventCounterRequest"), S("ReportSlaveIdRequest"),   # PDU 1, frame 4
+        S("ReadExceptionStatusResponse", 0x5a), S("ExceptionResponse", 3, 2),                          # PDU 2, frame 5
+        S("ReadHoldingRegistersResponse", regs(124)),                                                  # PDU 250
+        S("ReadHoldingRegistersResponse", regs(125)), S("ReadInputRegistersResponse", regs(125)),      # PDU 252, frame 255
+        S("WriteMultipleRegistersRequest", 0x10, regs(122)),                                           # PDU 250
+        S("WriteMultipleRegistersRequest", 0x10, regs(123)),                                           # PDU 252, frame 255
+        S("ReadWriteMultipleRegistersRequest", read_address=1, read_count=2, write_address=3, write_registers=regs(121)),  # PDU 252
+        S("ReadWriteMultipleRegistersResponse", regs(125)),
+        S("ReadCoilsResponse", [i % 3 == 0 for i in range(2000)]),                                     # PDU 252
+        S("ReadDiscreteInputsResponse", [i % 5 == 0 for i in range(2008)]),                            # PDU 253, frame 256
+        S("WriteMultipleCoilsRequest", 7, [i % 2 == 0 for i in range(1968)]),                          # PDU 252
+        S("WriteMultipleCoilsRequest", 7, [i % 7 == 0 for i in range(1976)]),                          # PDU 253, frame 256
+        S("ReportSlaveIdResponse", bytes(nd((i * 11 + 3) & 0xff) for i in range(248)), False),             # PDU 251, frame 254
+        S("ReportSlaveIdResponse", bytes(nd((i * 5 + 1) & 0xff) for i in range(249)), True),               # PDU 252
+        S("ReportSlaveIdResponse", bytes((i * 3 + 2) & 0xff for i in range(250)), True),               # PDU 253, frame 256
+        S("GetCommEventLogResponse", status=True, message_count=2, event_count=3, events=[nd((i * 7) & 0xff) for i in range(244)]),  # PDU 252
+        S("GetCommEventLogResponse", status=True, message_count=2, event_count=3, events=[(i * 7) & 0xff for i in range(245)]),  # PDU 253
+    ]
 
 
 def packet_of(kind, spec, uid):
@@ -313,6 +339,10 @@ def c03_cases(tier):
     for name, client, spec in forced_payload_specs():
         for kind in ("rtu", "bin"):
             todo.append((name, client, spec, kind, r.choice([1, 17, r.randrange(256)]), "payload256"))
+    for name, client, spec in extreme_specs():
+        for kind in ("rtu", "bin"):
+            for uid in (1, 247):
+                todo.append((name, client, spec, kind, uid, "extreme"))
     # unit ids: all 256 on one small request
     rd = ("ReadHoldingRegistersRequest", (1, 2), {}, {})
     for uid in range(256):
@@ -442,6 +472,28 @@ def suite_c06(tier):
                 for mask in range(0, 1 << (n - 1), step):
                     cuts = [i + 1 for i in range(n - 1) if mask >> i & 1]
                     cases.append(stream_case(kind, client, f2, cuts_to_chunks(stream, cuts), "allcuts2"))
+            # (a') size extremes (PDU 1, 2, 250..253 bytes; RTU frames up to 256 bytes): whole, cuts near both
+            #      ends and sampled cuts, one frame per read, tiny frame followed by a maximal one
+            ext = [m for m in extreme_specs() if m[1] == client]
+            tinyx = [m for m in ext if m[0] in ("ReadExceptionStatusRequest", "GetCommEventCounterRequest", "ReportSlaveIdRequest",
+                                                "ReadExceptionStatusResponse", "ExceptionResponse")]
+            for m in ext:
+                fx = pick_frames(r, [m], 1, kind, want_clean=False)
+                if not fx:
+                    continue
+                sx = fx[0][4]
+                nx = len(sx)
+                cases.append(stream_case(kind, client, fx, [sx], "extreme-whole"))
+                near = [c for c in (1, 2, 3, 4, 8, nx - 4, nx - 3, nx - 2, nx - 1) if 0 < c < nx]
+                for c in sorted(set(near + (r.sample(range(1, nx), min(nx - 1, 4 if quick else 20)) if nx > 1 else []))):
+                    cases.append(stream_case(kind, client, fx, cuts_to_chunks(sx, [c]), "extreme-cut1"))
+                if nx > 3:
+                    cases.append(stream_case(kind, client, fx, cuts_to_chunks(sx, r.sample(range(1, nx), 2)), "extreme-cut2"))
+                if tinyx and nx > 200:
+                    ft = pick_frames(r, tinyx, 1, kind, want_clean=False)
+                    cases.append(stream_case(kind, client, ft + fx, [ft[0][4], sx], "extreme-tiny|max"))
+                    cases.append(stream_case(kind, client, fx + ft, [sx, ft[0][4]], "extreme-max|tiny"))
+                    cases.append(stream_case(kind, client, ft + fx, [ft[0][4] + sx[:5], sx[5:]], "extreme-tiny+max"))
             # (b) longer mixed streams: single cuts, double cuts (sampled), random k-cuts, byte-at-a-time,
             #     frame-aligned reads with sub-cuts, empty reads
             for rep in range(6 if quick else 60):
@@ -505,16 +557,49 @@ def suite_c07(tier):
                                                                "WriteSingleRegisterResponse", "WriteMultipleRegistersResponse")], 1, kind)
             others = pick_frames(r, pool, 5 if quick else 40, kind)
             nb_ = pick_frames(r, pool, 1, kind)[0]
+            for _ in range(50):     # the neighbour must differ from every frame it accompanies
+                if all(nb_[4] != f[4] for f in base + others):
+                    break
+                nb_ = pick_frames(r, pool, 1, kind)[0]
             for idx, f in enumerate(base + others):
                 p = f[4]
                 nbits = 8 * len(p)
                 units = sorted({f[2], nb_[2]})
-                ctxs = [("alone", lambda c: [c]), ("then-valid", lambda c: [c, nb_[4]]),
-                        ("after-valid", lambda c: [nb_[4], c]), ("same-read", lambda c: [c + nb_[4]])]
+                nbv = nb_[4]
+                ctxs = [("alone", lambda c: [c]), ("then-valid", lambda c: [c, nbv]),
+                        ("after-valid", lambda c: [nbv, c]), ("same-read", lambda c: [c + nbv])]
+                # several frames in ONE read (and the same bytes split across reads): an intact frame
+                # first must not open the gate for a corrupted frame behind it
+                multi = [("valid+corrupt", lambda c: [nbv + c]),
+                         ("valid+corrupt+valid", lambda c: [nbv + c + nbv]),
+                         ("corrupt+valid+valid", lambda c: [c + nbv + nbv]),
+                         ("valid+corrupt|split", lambda c: [nbv + c[:max(1, len(c) // 2)], c[max(1, len(c) // 2):]]),
+                         ("valid|corrupt+valid", lambda c: [nbv, c + nbv]),
+                         ("valid-split+corrupt|valid", lambda c: [nbv[:3], nbv[3:] + c, nbv]),
+                         ("valid+valid+corrupt", lambda c: [nbv + nbv + c]),
+                         ("valid|valid+corrupt|empty", lambda c: [nbv, nbv + c, b""])]
 
                 def emit(c, label, every=False):
                     for cn, mk in (ctxs if every else [ctxs[r.randrange(len(ctxs))]]):
                         cases.append(c07_case(kind, client, units, mk(c), label + ":" + cn, [p, nb_[4]]))
+
+                def emit_multi(c, label, every=False):
+                    for cn, mk in (multi if every else [multi[r.randrange(len(multi))]]):
+                        cases.append(c07_case(kind, client, units, mk(c), label + ":" + cn, [p, nb_[4]]))
+                # single-bit flips of the later frame of a read: every bit of the value / CRC bytes (the last
+                # 4 bytes before the trailer) in every multi-frame context for the first frame, sampled otherwise
+                tail0 = max(0, len(p) - (5 if kind == "bin" else 4))
+                tailbits = range(8 * tail0, 8 * (len(p) - (1 if kind == "bin" else 0)))
+                if idx == 0:
+                    for i in tailbits:
+                        emit_multi(flip(p, [i]), "mflip1", every=True)
+                    for i in range(0, 8 * tail0):
+                        emit_multi(flip(p, [i]), "mflip1")
+                else:
+                    for i in r.sample(list(tailbits), 6 if quick else 24) + r.sample(range(nbits), 4 if quick else 16):
+                        emit_multi(flip(p, [i]), "mflip1")
+                emit_multi(p[:-1], "mtruncate")
+                emit_multi(p + bytes([r.randrange(256)]), "mextend")
                 # every single-bit flip
                 for i in (range(nbits) if len(p) <= 40 or not quick else r.sample(range(nbits), 120)):
                     emit(flip(p, [i]), "flip1", every=(idx == 0 and i % 8 == 0))
@@ -522,7 +607,7 @@ def suite_c07(tier):
                 if idx == 0:
                     pairs = list(itertools.combinations(range(nbits), 2))
                     if quick:
-                        pairs = pairs[::4] if kind == "rtu" else pairs[::8]
+                        pairs = pairs[::5] if kind == "rtu" else pairs[::10]
                 else:
                     pairs = [tuple(r.sample(range(nbits), 2)) for _ in range(30 if quick else 200)]
                 for a, b in pairs:
@@ -538,7 +623,7 @@ def suite_c07(tier):
                 if idx == 0:
                     subs = [(i, v) for i in range(len(p)) for v in range(256) if v != p[i]]
                     if quick:
-                        subs = subs[::5] if kind == "rtu" else subs[::9]
+                        subs = subs[::6] if kind == "rtu" else subs[::11]
                 else:
                     subs = [(r.randrange(len(p)), r.randrange(256)) for _ in range(30 if quick else 300)]
                 for i, v in subs:
